@@ -365,7 +365,8 @@ def run_file(pl):
         colidx[nm] = {c: len(t.column_name) - 1 - t.column_name[::-1].index(c) for c in t.column_name}
     # --- selections
     if pl.get('calls') is not None:
-        calls = [{'sel': nav.sel_from_json(c['selection']), 'form': c.get('form', 'list'), 'short': c.get('short'), 'index': c.get('index', 0)} for c in pl['calls']]
+        calls = [{'sel': nav.sel_from_json(c['selection']), 'form': c.get('form', 'list'), 'short': c.get('short'), 'index': c.get('index', 0),
+                  'partner_first': c.get('partner_first', False)} for c in pl['calls']]
         for c in calls: c['tables'] = [t for t in names if t in set(spec_table(s[0]) for s in c['sel'])]
     else:
         repeated, rep_note = repeated_rows(path, lst, names)
@@ -495,6 +496,10 @@ def run_file(pl):
     samples = []
     n_reduced = 0
     hyp = {'selections': 0, 'wf_file': 0, 'wf_metas': 0, 'covers': 0, 'in_hang_class': 0, 'hang_class_and_timeout': 0}
+    partner = None
+    if pl.get('partner'):
+        try: partner = nav.open_listing(os.path.join(pl['repo'], pl['partner']))
+        except Exception: partner = None
     l2 = None                  # one reader serves all calls of the file; it is re-opened after a call that did not return or raised
     for k, c in enumerate(calls):
         if l2 is None: l2 = nav.open_listing(path)
@@ -502,8 +507,21 @@ def run_file(pl):
         before = nav.snap(l2, names)
         sel = c['sel']
         arg = sel[0] if (c['form'] == 'tuple' and len(sel) == 1) else list(sel)
+        arg_before = repr(arg)
+        inp_pre = {}
+        if partner is not None and c.get('partner_first', k % 2 == 0):
+            # results must not depend on other live objects: the same selection is first put to a reader of ANOTHER listing
+            # of the same simulator in this process (its outcome, even an exception, is of no interest here)
+            stp, _ = call_history(partner, sel[0] if (c['form'] == 'tuple' and len(sel) == 1) else list(sel), c['short'], limit)
+            stats['other_listing_first'] = stats.get('other_listing_first', 0) + 1
+            inp_pre = {'preceded_by': {'file': pl['partner'], 'call': 'history(the same selection) on a reader of this other listing, same process'}}
+            if stp == 'timeout':
+                try: partner.close()
+                except Exception: pass
+                partner = None
         status, r = call_history(l2, arg, c['short'], limit)
-        inp = dict(pl['inp'], selection=nav.sel_to_json(sel), form=c['form'], short=c['short'], index=c['index'])
+        arg_changed = repr(arg) != arg_before
+        inp = dict(pl['inp'], selection=nav.sel_to_json(sel), form=c['form'], short=c['short'], index=c['index'], **inp_pre)
         mo = model_out[k]
         sel_str_items = sel_str[k].split('!', 1)[1].split(';')[:-1]
 
@@ -615,6 +633,7 @@ def run_file(pl):
                         if len(sel) > 6 and not has_short and n_reduced < 3:
                             # a many-item call: give the witness as the one-item call when that fails alone too
                             n_reduced += 1
+                            if inp_pre and partner is not None: call_history(partner, [it], c['short'], limit)
                             st1, r1 = call_history(l2, [it], c['short'], limit)
                             if st1 == 'ok' and r1 is not None and [float(x) for x in r1[1]] != exp:
                                 inp = dict(inp, selection=nav.sel_to_json([it]), reduced_from_items=len(sel))
@@ -623,11 +642,49 @@ def run_file(pl):
                     elif tt != exp_t:
                         fail('history:times-mismatch', 'item %r: %d times returned, first %r; matching times are %d, first %r' % (it, len(tt), tt[:3], len(exp_t), exp_t[:3]),
                              'values paired with the times of the result sets they were read from')
+            # ---- oracle: the result is a function of the file and the selection, not of what was done with the reader before:
+            # look every selected row up in its table through the public interface (table[key], what a user stepping through
+            # the times does), call history() again on the same object with the same selection: same result
+            if arg_changed: fail('history:mutates-selection-argument', 'the selection passed in was changed by the call', 'the caller\'s selection is left as it was')
+            if got is not None:
+                stats['repeat_after_lookup'] = stats.get('repeat_after_lookup', 0) + 1
+                for it in sel[:400]:
+                    tname_ = spec_table(it[0])
+                    if tname_ in tabs:
+                        try: getattr(l2, tname_)[it[1]]
+                        except Exception: pass
+                st2, r2 = call_history(l2, sel[0] if (c['form'] == 'tuple' and len(sel) == 1) else list(sel), c['short'], limit)
+                same = st2 == 'ok' and r2 is not None
+                if same:
+                    got2 = [r2] if len(sel) == 1 else list(r2)
+                    same = len(got2) == len(got) and all(len(a) == 2 and np.array_equal(np.asarray(a[0], dtype=float), np.asarray(b[0], dtype=float), equal_nan=True) and
+                                                         np.array_equal(np.asarray(a[1], dtype=float), np.asarray(b[1], dtype=float), equal_nan=True) for a, b in zip(got2, got))
+                if not same:
+                    which = None
+                    if st2 == 'ok' and r2 is not None and len(got2) == len(got):
+                        which = next((ki for ki, (a, b) in enumerate(zip(got2, got)) if not (np.array_equal(np.asarray(a[1], dtype=float), np.asarray(b[1], dtype=float), equal_nan=True) and
+                                                                                              np.array_equal(np.asarray(a[0], dtype=float), np.asarray(b[0], dtype=float), equal_nan=True))), None)
+                    inp_full = inp
+                    if which is not None:
+                        inp = dict(inp, selection=nav.sel_to_json([sel[which]]), form='list', reduced_from_items=len(sel))
+                        obs = 'item %r: first call %r..., after table[key] lookups of the selected rows the same call gives %r...' % (sel[which], [float(x) for x in got[which][1][:3]], [float(x) for x in got2[which][1][:3]])
+                    else: obs = 'second call: %s' % (st2 if st2 != 'ok' else 'different shape / None')
+                    inp = dict(inp, sequence=['history(selection)', 'table[key] for every selected row', 'history(selection)'])
+                    fail('history:result-depends-on-earlier-lookups', obs, 'the same series whatever was looked up in the tables before (they are the stepping series)')
+                    inp = inp_full
+                    try: l2.close()
+                    except Exception: pass
+                    l2 = None
+                if st2 != 'ok':
+                    try:
+                        if l2 is not None: l2.close()
+                    except Exception: pass
+                    l2 = None
             # ---- oracle: reader state as before, and a next()/prev() right after behaves
             if not (after[0] == before[0] and same_float(after[1], before[1]) and after[2] == before[2] and after[3] == before[3]):
                 what = 'index' if after[0] != before[0] else 'time' if not same_float(after[1], before[1]) else 'step' if after[2] != before[2] else 'tables'
                 fail('history:state-changed:' + what, '%s changed by history(): %r -> %r' % (what, before[:3], after[:3]), 'same current index, time, step and tables as before the call')
-            if k < 12 or k % 4 == 0 or pl['thorough']:
+            if l2 is not None and (k < 12 or k % 4 == 0 or pl['thorough']):
                 stats['next_prev_after'] = stats.get('next_prev_after', 0) + 1
                 i0 = int(before[0])
                 try:
@@ -671,6 +728,10 @@ def run_all(ctx, exe, files, cap, timeout, calls_for=None):
         jobs.append({'path': os.path.join(ctx.repo, rel), 'label': rel, 'inp': {'file': rel}, 'seed': ctx.rng.randrange(1 << 30), 'cap': cap,
                      'thorough': ctx.thorough, 'exe': exe, 'repo': ctx.repo, 'size': os.path.getsize(os.path.join(ctx.repo, rel)),
                      'calls': (calls_for or {}).get(rel)})
+    for j in jobs:        # another listing of the same simulator, used in the same process before some of the calls
+        fam = [x for x in files if os.path.dirname(os.path.dirname(x)) == os.path.dirname(os.path.dirname(j['label'])) and x != j['label']]
+        later = [x for x in fam if x > j['label']]
+        j['partner'] = (later or fam or [None])[0]
     jobs.sort(key=lambda j: (-(j['label'].find('TOUGHplus') >= 0), -j['size']))
 
     def one(j):
@@ -767,7 +828,9 @@ def replay(ctx, data):
     inp = data.get('input') or {}
     if 'file' not in inp or 'selection' not in inp: return True
     j = {'path': os.path.join(ctx.repo, inp['file']), 'label': inp['file'], 'inp': {'file': inp['file']}, 'seed': 0, 'cap': 1, 'thorough': False, 'exe': None,
-         'repo': ctx.repo, 'calls': [{'selection': inp['selection'], 'form': inp.get('form', 'list'), 'short': inp.get('short'), 'index': inp.get('index', 0)}]}
+         'repo': ctx.repo, 'partner': (inp.get('preceded_by') or {}).get('file'),
+         'calls': [{'selection': inp['selection'], 'form': inp.get('form', 'list'), 'short': inp.get('short'), 'index': inp.get('index', 0),
+                    'partner_first': bool(inp.get('preceded_by'))}]}
     try: r = vf.run_impl(WORKER, j, timeout=300, repo=ctx.repo)
     except subprocess.TimeoutExpired:
         print('replay: no result within 300 s'); return True
